@@ -4,3 +4,6 @@ C('C01', 'exploration', 'runtime monitoring: spec-codec reference model in lock-
 C('C02', 'exploration', 'runtime monitoring: call-history monitor (encode,encode,decode,encode,decode-into-same,...) plus icontract purity contracts on the real encode() methods',
   'Held on every generated call history for all message kinds (constructed-first and wire-first), with icontract snapshot/ensure contracts on every encode() evaluated throughout (and under the repository test-suite in the thorough tier). Histories on one object are the quantifier the tests lack.',
   'Trusted: adapter table (public fields), spec codec for size bounds. Purity is judged on public fields and on byte equality of repeated encodes, not on private bookkeeping attributes.', 'DESIGN.md 5/C02')
+C('C19', 'exploration', 'runtime monitoring: independent layout reference model in lock-step with builder and decoder',
+  'Held on every generated sequence of typed values (full ranges, extremes, subnormal/inf/NaN bit patterns) x 4 order combinations x raw/register transport; layout compared byte-for-byte with the reference, decoded values by bit pattern.',
+  'Trusted: vmon/spec/payload.py (conventional register image) and the standard library float conversion.', 'DESIGN.md 5/C19')
